@@ -70,6 +70,9 @@ type Script struct {
 	Filler   func(round uint8, dst uint16) int
 	// Versions >1: a Byzantine party emits that many versions of each broadcast (the interceptor routes them).
 	Versions map[uint16]int
+	// InitHook is called at the start of Init (the orchestrator is then between creating the protocol instance and registering
+	// the session's handlers): lets a harness park the set-up of a session there
+	InitHook func(node uint16)
 }
 
 func (s Script) transmits(pid uint16) bool { return s.Transmit == nil || s.Transmit[pid] }
@@ -127,6 +130,9 @@ func (b *Backend) ClassifyMsg(m []byte) (uint8, bool, error) {
 }
 
 func (b *Backend) Init(parties []uint16, threshold int, send func([]byte, bool, uint16)) {
+	if b.Script.InitHook != nil {
+		b.Script.InitHook(b.Node)
+	}
 	b.Net.Record(simnet.Event{Kind: simnet.EvInit, Node: b.Node, Parties: append([]uint16{}, parties...), Pkt: uint64(threshold)})
 	b.mu.Lock()
 	b.parties = append([]uint16{}, parties...)
